@@ -348,7 +348,8 @@ impl Solver {
         let seq = format!("{f}.seq");
         let m = std::fs::read_to_string(&seq).unwrap_or_default().bytes().filter(|b| *b == b'C').count() as u64;
         if let Ok(mut k) = std::fs::OpenOptions::new().create(true).append(true).open(&seq) {
-            let _ = write!(k, "C");
+            // with the length of the command text: the fault-enumeration check looks for long runs of such commands
+            let _ = write!(k, "C{} ", text.len());
         }
         let Some((kind, at)) = self.cmd_fault.clone() else { return false };
         if m != at {
@@ -378,7 +379,7 @@ impl Solver {
                     let _ = writeln!(k, "{kind_of_point}");
                 }
                 if let Ok(mut k) = std::fs::OpenOptions::new().create(true).append(true).open(format!("{f}.seq")) {
-                    let _ = write!(k, "R");
+                    let _ = write!(k, "R ");
                 }
                 cur
             }
@@ -759,6 +760,11 @@ fn main() {
     if let Ok(script) = std::env::var("REFSOLVER_SCRIPT") {
         scripted(&script);
         return;
+    }
+    // a small pipe between client and solver: the client cannot run far ahead of what the solver has read, so a
+    // solver that dies at some command really is gone when the client writes the following ones
+    if let Some(sz) = std::env::var("REFSOLVER_PIPE_SZ").ok().and_then(|s| s.parse::<i32>().ok()) {
+        unsafe { libc::fcntl(0, libc::F_SETPIPE_SZ, sz) };
     }
     let seed: u64 = std::env::var("REFSOLVER_SEED").ok().and_then(|s| s.parse().ok()).unwrap_or(1);
     let timeout_ms: u64 = std::env::var("REFSOLVER_Z3_TIMEOUT_MS").ok().and_then(|s| s.parse().ok()).unwrap_or(20_000);
